@@ -35,6 +35,7 @@ ASSUMPTIONS = [
 ]
 REQUIRED_CLASSES = {'all': ['verified', 'rejected']}
 QUICK_VALIDATE = 3
+QTIMEOUT_MS = {'quick': 30000, 'thorough': 60000}
 
 ALTER = ['none', 'payload-octet', 'lifetime', 'timestamp', 'destination', 'target-flags', 'sec-source', 'protected-header',
          'tag', 'unrelated-block', 'wrong-key', 'bib-block-flags']
@@ -53,7 +54,129 @@ def cases(tier):
         out.append(dict(kind='mac0', alter=alt, targets=2))
     # the original target content moved into the COSE message's payload slot, target block rewritten
     out.append(dict(kind='mac0', alter='attached-payload'))
+    # receiver side on its own: BIBs built independently (ideal tag over the independently constructed AAD) with
+    # other AAD scopes, the default scope (parameter absent) and the key id in the additional protected parameter
+    for scope in RX_SCOPES:
+        for alt in RX_ALTER:
+            if tier == 'quick' and alt in ('other-flags', 'timestamp') and scope not in ('p+t+o3', 'default'):
+                continue
+            # (default scope = parameter 5 absent; the key id then travels in the additional protected parameter so
+            #  that the parameter list is not empty: a security block without any parameter is not verifiable by
+            #  this implementation at all - TypeError inside check_secblk, failing closed - see DESIGN.md)
+            out.append(dict(kind='rx', scope=scope, alter=alt, **(dict(addl=True) if scope == 'default' else {})))
+    for alt in ('none', 'addl-protected', 'lifetime'):
+        out.append(dict(kind='rx', scope='p+t', alter=alt, addl=True))
     return out
+
+
+RX_SCOPES = {'p+t': {0: 1, -1: 1}, 't': {-1: 1}, 'p': {0: 1}, 'empty': {}, 'p+t+o1': {0: 1, -1: 1, 4: 1},
+             'p+t+o2': {0: 1, -1: 1, 4: 2}, 'p+t+o3': {0: 1, -1: 1, 4: 3}, 'p+t+s': {0: 1, -1: 1, -2: 1}, 'default': None}
+RX_ALTER = ['none', 'payload-octet', 'lifetime', 'timestamp', 'target-flags', 'other-data', 'other-flags', 'bib-block-flags']
+
+
+def rx_covered(scope, alt):
+    ''' Is the altered item covered by the tag under this scope?  (Independent reading of the draft.) '''
+    if scope is None:
+        scope = {0: 1, -1: 1, -2: 1}
+    if alt == 'none':
+        return False
+    if alt in ('payload-octet', 'addl-protected'):
+        return True
+    if alt in ('lifetime', 'timestamp'):
+        return bool(scope.get(0, 0) & 1)
+    if alt == 'target-flags':
+        return bool(scope.get(-1, 0) & 1)
+    if alt == 'other-data':
+        return bool(scope.get(4, 0) & 2)
+    if alt == 'other-flags':
+        return bool(scope.get(4, 0) & 1)
+    if alt == 'bib-block-flags':
+        return bool(scope.get(-2, 0) & 1)
+    raise KeyError(alt)
+
+
+def h_rx(c, case, tier):
+    ''' The receiving side alone. '''
+    alt = case['alter']
+    scope = RX_SCOPES[case['scope']]
+    n = 4 if tier == 'quick' else 12
+    key, _extra = keys('mac0')
+    data = c.sym_bytes('pay', n)
+    life = c.sym_int('lifetime', 2 ** 32, 2 ** 40)
+    ts = c.sym_int('dtntime', 2 ** 32, 2 ** 39)
+    pri = dict(flags=0, crc_type=2, destination='dtn://dst/app', source='dtn://src/app', report_to='dtn:none',
+               create_ts=[ts, 3], lifetime=life, version=7)
+    oth = dict(type=192, num=4, flags=0, crc_type=0, data=c.sym_bytes('other', 2))
+    pay = dict(type=1, num=1, flags=0, crc_type=2, data=data)
+    bib = dict(type=11, num=3, flags=0, crc_type=0, data=b'')
+    source = [1, '//src/']
+    addl = rfc9171.enc({4: key.kid}) if case.get('addl') else b''
+    # what the source authenticates: computed from a reading of the bundle as it is sent
+    sent = rfc9171.decode_bundle(rfc9171.sealed_bundle(pri, [dict(bib, data=b'\x00'), oth, pay]))
+    eff = scope if scope is not None else {0: 1, -1: 1, -2: 1}
+    aad = rfc9171.bpsec_cose_aad(sent, source, eff, pay, addl_protected=addl, secblk=bib)
+    phdr = symcbor._real.dumps({1: 5})                       # HMAC 256/256
+    tok = idealcose._token('M', len(idealcose._entries()), 32)
+    idealcose._entries().append(dict(kind='mac', key=idealcose._keybytes(key), token=tok,
+                                     data=rfc9171.enc(['MAC0', phdr, aad, data])))
+    uhdr = {} if case.get('addl') else {4: key.kid}
+
+    def secblock(addl_now):
+        params = []
+        if addl_now:
+            params.append([3, addl_now])
+        if scope is not None:
+            params.append([5, scope])
+        msg = rfc9171.enc([phdr, uhdr, None, tok])
+        e = rfc9171.enc
+        out = e([1]) + e(3) + e(1 if params else 0) + e(source)
+        if params:
+            out = out + e(params)
+        return out + e([[[17, msg]]])
+
+    def other_value(name, old, lo, hi):
+        v = c.sym_int(name, lo, hi)
+        c.assume(v != old)
+        return v
+    addl_now = addl
+    if alt == 'payload-octet':
+        items = list(SBuf.of(data)[0].items)
+        i = c.choose(len(items), 'octet')
+        items[i] = other_value('newoctet', items[i], 0, 255)
+        pay['data'] = SBuf.mk([Lit(items)])
+    elif alt == 'lifetime':
+        pri['lifetime'] = other_value('newlife', life, 2 ** 32, 2 ** 40)
+    elif alt == 'timestamp':
+        pri['create_ts'][0] = other_value('newts', ts, 2 ** 32, 2 ** 39)
+    elif alt == 'target-flags':
+        pay['flags'] = [1, 2, 4, 0x10][c.choose(4, 'new-flags')]
+    elif alt == 'other-data':
+        items = list(SBuf.of(oth['data'])[0].items)
+        items[0] = other_value('newother', items[0], 0, 255)
+        oth['data'] = SBuf.mk([Lit(items)])
+    elif alt == 'other-flags':
+        oth['flags'] = [1, 2, 4, 0x10][c.choose(4, 'new-flags')]
+    elif alt == 'bib-block-flags':
+        bib['flags'] = [1, 2, 4, 0x10][c.choose(4, 'new-flags')]
+    elif alt == 'addl-protected':
+        # the same key id, but the parameter's octets differ (a second, harmless header)
+        addl_now = rfc9171.enc({4: key.kid, 6: b'\x01'})
+    bib['data'] = secblock(addl_now)
+    wire = rfc9171.sealed_bundle(pri, [bib, oth, pay])
+    r = BpWorld(node_id='dtn://dst/', ctr_cap=8)
+    r.add_rx_route(r'^dtn://dst/.+', 'deliver')
+    configure(r, 'mac0')
+    r.recv(wire)
+    r.run_idle(20)
+    esc = r.escaped()
+    c.prove(not esc, 'no-callback-exception', detail=[repr(e) for (_s, e) in esc])
+    delivered = len(r.delivered)
+    tag = '%s,%s' % (case['scope'], alt)
+    if rx_covered(scope, alt):
+        c.prove(delivered == 0, 'rx:altered-item-in-scope-fails-verification[%s]' % tag, detail=delivered)
+        return {'class': 'rejected'}
+    c.prove(delivered == 1, 'rx:unaltered-or-out-of-scope-verifies[%s]' % tag, detail=delivered)
+    return {'class': 'verified'}
 
 
 def keys(kind):
@@ -86,6 +209,8 @@ def harness(case, tier):
     c = cur()
     idealcose.install()
     idealcose.reset()
+    if case['kind'] == 'rx':
+        return h_rx(c, case, tier)
     alt = case['alter']
     n = 4 if tier == 'quick' else 12
     # ---------------- source
